@@ -864,8 +864,9 @@ std::string Position::san_without_check(Move move) const
     }
 
     Bitboard capturing_bb = pieces(!_current_side);
-    capturing_bb |=
-        moved_piece == PAWN ? square_bb(_enpassant_square) : no_squares_bb;
+    capturing_bb |= (moved_piece == PAWN && _enpassant_square != NO_SQUARE)
+                        ? square_bb(_enpassant_square)
+                        : no_squares_bb;
     if (square_bb(to(move)) & capturing_bb)
     {
         if (moved_piece == PAWN && s == "")
